@@ -4,8 +4,8 @@ from ..pyvc.engine import Registry
 
 def build():
     reg = Registry()
-    from . import hypergraph, directed, temporal, multiplex, cc, generation, filters, similarity, hashing, projections, dynamics, motifs, linalg
-    mods = [hypergraph, directed, temporal, multiplex, cc, generation, filters, similarity, hashing, projections, dynamics, motifs, linalg]
+    from . import hypergraph, directed, temporal, multiplex, cc, generation, filters, similarity, hashing, projections, dynamics, motifs, linalg, contagion
+    mods = [hypergraph, directed, temporal, multiplex, cc, generation, filters, similarity, hashing, projections, dynamics, motifs, linalg, contagion]
     for m in mods:
         if hasattr(m, "LAYOUT"):
             reg.add_layout(m.LAYOUT)
